@@ -681,4 +681,55 @@ class Two(Generic[K, T]):
             ctx.violation("dump-differs:pipe-union-field", f"{label}: dump {d!r:.200}, expected {good_d!r}", {"source": source})
 
 
-DIRECTED = {"pipe-unions-of-builtin-generics": _pipe_unions_of_builtin_generics, "iterable-models": _iterable_models, "undecorated-children": _undecorated_children, "attrs-handwritten-init": _attrs_handwritten_init, "pydantic-one-parameter": _pydantic_one_parameter, "generic-namedtuple-one-parameter": _directed, "initvar-of-type-variable": _initvar, "inherited-init-false-fields": _init_false_fields}
+def _pep695_aliases_as_field_types(ctx):
+    """PEP 695 aliases inside generic models: a BARE generic alias (`a: LA` = list[Any]: its __parameters__ are its own declaration, not free
+    variables of the model), an alias applied to the model's variable, the identity alias `type Id[X] = X`, through a child that binds the
+    variable (reports of a round-8 agent: KeyError(X) in the resolver; Id[K] came back unsubstituted)."""
+    if sys.version_info < (3, 12):
+        return
+    mod = types.ModuleType(f"vlib_c16_alias{next(_n)}")
+    sys.modules[mod.__name__] = mod
+    source = """
+from typing import Generic, TypeVar
+from dataclasses import dataclass
+K = TypeVar('K')
+type LA[X] = list[X]
+type Id[X] = X
+type Pair[A, B] = dict[B, A]
+@dataclass
+class Bare(Generic[K]):
+    a: LA
+    b: K
+@dataclass
+class Applied(Generic[K]):
+    a: LA[K]
+    b: Pair[K, str]
+@dataclass
+class Ident(Generic[K]):
+    a: Id[K]
+    b: list[Id[K]]
+@dataclass
+class Child(Ident[int]):
+    c: LA = None
+"""
+    exec(compile(source, f"<{mod.__name__}>", "exec", dont_inherit=True), mod.__dict__)  # noqa: S102
+    cases = [("Bare[int]", mod.Bare[int], {"a": [1, "x"], "b": 2}, {"a": [1], "b": "s"}), ("Bare[str]", mod.Bare[str], {"a": [], "b": "s"}, {"a": 5, "b": "s"}),
+             ("Applied[int]", mod.Applied[int], {"a": [1], "b": {"k": 2}}, {"a": ["s"], "b": {"k": 2}}), ("Applied[str]", mod.Applied[str], {"a": ["s"], "b": {"k": "v"}}, {"a": ["s"], "b": {"k": 1}}),
+             ("Ident[int]", mod.Ident[int], {"a": 1, "b": [2]}, {"a": "s", "b": [2]}), ("Ident[str]", mod.Ident[str], {"a": "s", "b": ["t"]}, {"a": "s", "b": [1]}),
+             ("Child", mod.Child, {"a": 1, "b": [2], "c": ["x", 1]}, {"a": 1, "b": ["s"], "c": []})]
+    for label, hint, good_d, bad_d in cases:
+        ok_, ko_ = attempt(Retort().load, good_d, hint), attempt(Retort().load, bad_d, hint)
+        ctx.evaluated(("directed-pep695-alias-field", label), nontrivial=True)
+        ctx.count("conforming_loads")
+        ctx.count("nonconforming_loads")
+        if ok_.kind != "ok":
+            ctx.violation("conforming-data-rejected:pep695-alias-field", f"{label}: {good_d!r} -> {ok_!r:.250}", {"source": source})
+            continue
+        if ko_.kind == "ok":
+            ctx.violation("other-substitution-accepted:pep695-alias-field", f"{label}: {bad_d!r} accepted", {"source": source})
+        d = attempt(Retort().dump, ok_.value, hint)
+        if d.kind != "ok" or not _dump_eq(d.value, good_d):
+            ctx.violation("dump-differs:pep695-alias-field", f"{label}: dump {d!r:.200}, expected {good_d!r}", {"source": source})
+
+
+DIRECTED = {"pep695-aliases-as-field-types": _pep695_aliases_as_field_types, "pipe-unions-of-builtin-generics": _pipe_unions_of_builtin_generics, "iterable-models": _iterable_models, "undecorated-children": _undecorated_children, "attrs-handwritten-init": _attrs_handwritten_init, "pydantic-one-parameter": _pydantic_one_parameter, "generic-namedtuple-one-parameter": _directed, "initvar-of-type-variable": _initvar, "inherited-init-false-fields": _init_false_fields}
